@@ -145,6 +145,26 @@ mod proofs {
             }
         };
     }
+    // ---- ff's limb helpers (the contracts unit `mont` builds on): exact on the whole input domain ----------------------
+    mod limb_helpers {
+        #[kani::proof]
+        fn mac_with_carry() {
+            let a: u64 = kani::any(); let b: u64 = kani::any(); let c: u64 = kani::any(); let c0: u64 = kani::any();
+            let mut carry = c0;
+            let r = ff::mac_with_carry(a, b, c, &mut carry);
+            // a + b*c + c0 <= (2^64-1) + (2^64-1)^2 + (2^64-1) = 2^128 - 1: exact in u128
+            let t = (a as u128) + (b as u128) * (c as u128) + (c0 as u128);
+            assert!(((carry as u128) << 64) + (r as u128) == t);
+            assert!(r as u128 == t % (1u128 << 64)); assert!(carry as u128 == t / (1u128 << 64));
+        }
+        #[kani::proof]
+        fn adc() {
+            let a: u64 = kani::any(); let b: u64 = kani::any(); let c0: u64 = kani::any();
+            let mut carry = c0;
+            let r = ff::adc(a, b, &mut carry);
+            assert!(((carry as u128) << 64) + (r as u128) == (a as u128) + (b as u128) + (c0 as u128));
+        }
+    }
     // ---- Pippenger window heuristic (C10): for every number of components, both groups --------------------------
     mod pippenger_window {
         use pairing::bls12_381::{G1Affine, G2Affine};
